@@ -197,7 +197,8 @@ type gateSpec struct {
 	sentinel string
 	// allowLateFail: exits with a non-nil error that only accepted sizes reach (the read-failure exit)
 	allowLateFail bool
-	strResult     bool // first result is a string that must be "" on reject exits
+	strResult     bool   // first result is a string that must be "" on reject exits
+	kind          string // context kind of the subject: "L", "W" or "N"
 }
 
 func (a *Analysis) ruleGates() {
@@ -233,7 +234,7 @@ func (a *Analysis) ruleGates() {
 				}
 			}
 			res := AnalyseGate(a.NME, subj, a.NME.Blocks[0], ZRange(0, maxLen), bits, a.gateTables, a.isModuleFunc)
-			a.Gate1 = a.checkGate(gateSpec{rule: "G1", fn: a.NME, what: "len(" + param.Name() + ")", spec: specEntLens(), sentinel: "ErrEntropyLen", strResult: true}, res)
+			a.Gate1 = a.checkGate(gateSpec{rule: "G1", fn: a.NME, what: "len(" + param.Name() + ")", spec: specEntLens(), sentinel: "ErrEntropyLen", strResult: true, kind: "L"}, res)
 		}
 	}
 	// G2: the int parameter of NewMnemonic
@@ -248,7 +249,7 @@ func (a *Analysis) ruleGates() {
 			a.R.Unk("G2", "NewMnemonic/subject", a.P.Pos(a.NM.Pos()), "", "no int parameter")
 		} else {
 			res := AnalyseGate(a.NM, map[ssa.Value]bool{param: true}, a.NM.Blocks[0], ZRange(minInt, maxInt), bits, a.gateTables, a.isModuleFunc)
-			a.Gate2 = a.checkGate(gateSpec{rule: "G2", fn: a.NM, what: param.Name(), spec: specWordCounts(), sentinel: "ErrWordLen", allowLateFail: true, strResult: true}, res)
+			a.Gate2 = a.checkGate(gateSpec{rule: "G2", fn: a.NM, what: param.Name(), spec: specWordCounts(), sentinel: "ErrWordLen", allowLateFail: true, strResult: true, kind: "W"}, res)
 		}
 	}
 	// G3: len(tokens) in CheckMnemonic
@@ -278,7 +279,7 @@ func (a *Analysis) ruleGates() {
 				lo = 1
 			}
 			res := AnalyseGate(a.CM, subj, tok.Block(), ZRange(lo, maxLen), bits, a.gateTables, a.isModuleFunc)
-			a.Gate3 = a.checkGate(gateSpec{rule: "G3", fn: a.CM, what: "len(tokens)", spec: specWordCounts(), sentinel: "ErrWordLen", allowLateFail: true}, res)
+			a.Gate3 = a.checkGate(gateSpec{rule: "G3", fn: a.CM, what: "len(tokens)", spec: specWordCounts(), sentinel: "ErrWordLen", allowLateFail: true, kind: "N"}, res)
 		}
 	}
 	n := 0
@@ -326,6 +327,27 @@ func (a *Analysis) checkGate(gs gateSpec, res *GateResult) *GateInfo {
 		inSpec := reach.IntersectFinite(gs.spec)
 		outSpec := reach.MinusFinite(gs.spec)
 		matchesSent, desc := a.matches(errv, sent)
+		if !isNil && !inSpec.Empty() && (matchesSent || !gs.allowLateFail) && gs.kind != "" {
+			// a failure exit that BIP39 sizes seem to reach.  The gate analysis follows only the
+			// conditions on the size; the exit may sit behind another condition that never holds
+			// (a defensive re-check).  Ask the evaluator, size by size and language class by
+			// language class, whether any path reaches it.
+			var keep []int64
+			vs, _ := inSpec.Enumerate(64)
+			for _, v := range vs {
+				if a.exitFeasible(gs, v, ret) {
+					keep = append(keep, v)
+				}
+			}
+			if len(keep) < len(vs) {
+				r.OK(gs.rule, key+"/unreachable", rp, "", "this exit is behind a condition that never holds for %s ∈ %v (evaluated in every language class): not an exit for those sizes", gs.what, inSpec.MinusFinite(keep))
+				reach = outSpec.Union(ZOf(keep...))
+				inSpec = ZOf(keep...)
+				if reach.Empty() {
+					continue
+				}
+			}
+		}
 		// `return otherEntryPoint(...)`: the outcome is the callee's; for the set computation the
 		// exit counts as a success exit (the callee's own gate and the size-coherence rules G4
 		// decide whether it really succeeds for the sizes that reach it)
@@ -422,6 +444,25 @@ func (a *Analysis) checkGate(gs gateSpec, res *GateResult) *GateInfo {
 		fmt.Sprintf("accept set of %s is exactly %v (%d refining conditions)", gs.what, specSet, res.Atoms),
 		fmt.Sprintf("accept set of %s is %v ∪ %v, not %v", gs.what, ZOf(gi.Accept...), gi.Extra, specSet))
 	return gi
+}
+
+// exitFeasible: some evaluation of the gate's function with the subject fixed to v reaches ret.
+func (a *Analysis) exitFeasible(gs gateSpec, v int64, ret *ssa.Return) bool {
+	for _, lc := range a.langCtxs() {
+		v := v
+		e := a.eval(gs.fn, a.sizeCtx(gs.kind, &v, nil, lc))
+		for _, x := range e.Exits {
+			if x.Ret == ret {
+				return true
+			}
+		}
+		for _, ev := range e.Events {
+			if ev.Status == Undecided && ev.Rule == "P5" {
+				return true // a loop that was not summarised: the evaluation says nothing about reachability
+			}
+		}
+	}
+	return false
 }
 
 func exitLabel(ret *ssa.Return) string {
@@ -529,7 +570,6 @@ func (a *Analysis) gateTables(gl *ssa.Global) *gtable {
 	}
 	return nil
 }
-
 
 func (a *Analysis) isModuleFunc(f *ssa.Function) bool {
 	return f != nil && f.Pkg != nil && a.P.InModule(f.Pkg)
